@@ -169,7 +169,8 @@ def dup_ref_docs():
                         else:
                             s2 = settings
                             if s2 and f == f2 and f1 == f2 and ai == a2:
-                                s2 = 'update: no action, delete: cascade' if (a1 + a2) % 2 else settings     # settings order is spelling too
+                                # the order of the settings and the letter case of keys and actions are spelling too
+                                s2 = [settings, 'update: no action, delete: cascade', 'Delete: CASCADE, UPDATE: No Action'][(a1 + a2) % 3]
                             alone.append(ref_text(f, kind, f'{B_ADDR[ai]}.a_id', f'{A_ADDR[ai]}.id', name, s2))
                     tb = 'Table b as bb {\n  id int\n  a_id int' + (f' [{", ".join(inl)}]' if inl else '') + '\n}\n'
                     ta = 'Table a as aa {\n  id int [pk]\n}\n'
